@@ -168,9 +168,24 @@ def check_mapping(ctx, R, expected, label, wit, absent=()):
         _state["in_use"] = False
 
 
+CASSETTE_LABELS = ("KanR", "CamR", "CmR", "KnR", "AmpR", "SmR", "SpecR")
+
+
 def gb_text(rec):
+    """the plasmid as a GenBank file; two files in three give the resistance cassette further /label qualifiers
+    (a colour, a lab note) beside its name, as plasmid editors do"""
+    import copy
     from Bio import SeqIO
 
+    h = sum(map(ord, rec.id)) + len(rec)
+    if h % 3:
+        rec = copy.deepcopy(rec)
+        for f in rec.features:
+            labs = list(f.qualifiers.get("label", []))
+            if any(x in CASSETTE_LABELS for x in labs):
+                extra = ["color: #%06x" % (h * 7919 % 0xFFFFFF)] + (["lab marker %d" % h] if h % 2 else [])
+                f.qualifiers["label"] = (extra[:1] + labs + extra[1:]) if h % 5 < 2 else (labs + extra)
+                break
     b = io.StringIO()
     SeqIO.write([rec], b, "genbank")
     return b.getvalue()
